@@ -19,16 +19,18 @@ def info_valid(ctx, rule="INFO-VALID"):
     tab = tables.enum_table(prog, f, "internal::value::Value")
     d = tab.get("Null") if tab else None
     ctx.check(d == ("expr", "*p1.is_nullable"), rule, "Null -> is_nullable", str(d), "a null value is judged by %s, not by is_nullable" % (d,), f.loc(), fn=f.name)
+    from ..lib import unit_comparisons, lifted_closures
+    FLIP = {"Lt": "Gt", "Le": "Ge", "Gt": "Lt", "Ge": "Le", "Eq": "Eq", "Ne": "Ne"}
+
+    def nz(x):
+        return x.lstrip("&*")
     bins = []
-    for bl in f.blocks:
-        if bl["cleanup"]:
-            continue
-        for s in bl["stmts"]:
-            r = s["rhs"]
-            if r["rv"] == "bin" and r["op"] in ("Lt", "Le", "Gt", "Ge", "Eq", "Ne"):
-                facts = {e: tr for (e, tr, g) in S.bool_facts_at(bl["id"])}
-                bins.append((r["op"], S.val(r["ops"][0]), S.val(r["ops"][1]), facts))
-    V = "*p2@Int.0"
+    for (o, x, y, facts) in unit_comparisons(prog, f, S):
+        x, y = nz(x), nz(y)
+        if y == "p2@Int.0" or (y == "p1.coltype@Str.0" and "Iterator>::count(" not in x) or "Iterator>::count(" in y:
+            o, x, y = FLIP[o], y, x
+        bins.append((o, x, y, facts))
+    V = "p2@Int.0"
 
     def has(alts, a, b_pred, no_range=False, **ctxf):
         """a comparison `a OP b` with (OP, b) among the equivalent alternatives, in the given context"""
@@ -51,13 +53,13 @@ def info_valid(ctx, rule="INFO-VALID"):
         return y == c
     INT = {"discr(*p2)": ("==", 1)}
     checks = [
-        ("range minimum", has([("Lt", "*p1.value_range@Some.0.0"), ("Ge", "*p1.value_range@Some.0.0")], V, same, **INT)),
-        ("range maximum", has([("Gt", "*p1.value_range@Some.0.1"), ("Le", "*p1.value_range@Some.0.1")], V, same, **INT)),
+        ("range minimum", has([("Lt", "p1.value_range@Some.0.0"), ("Ge", "p1.value_range@Some.0.0")], V, same, **INT)),
+        ("range maximum", has([("Gt", "p1.value_range@Some.0.1"), ("Le", "p1.value_range@Some.0.1")], V, same, **INT)),
         ("Int16 lower bound excludes i16::MIN, whatever the declared range", has([("Gt", -32768), ("Ge", -32767)], V, const_is, no_range=True, **{"discr(*p1.coltype)": ("==", 0)})),
         ("Int16 upper bound, whatever the declared range", has([("Le", 32767), ("Lt", 32768)], V, const_is, no_range=True, **{"discr(*p1.coltype)": ("==", 0)})),
         ("Int32 excludes i32::MIN, whatever the declared range", has([("Gt", -2147483648), ("Ge", -2147483647)], V, const_is, no_range=True, **{"discr(*p1.coltype)": ("==", 1)})),
-        ("unlimited width when max_len == 0", has([("Eq", 0), ("Ne", 0)], "*p1.coltype@Str.0", const_is, **{"discr(*p2)": ("==", 2)})),
-        ("length counted in characters", any(o in ("Le", "Gt") and "Iterator>::count(core::str::<impl str>::chars(" in x and y == "*p1.coltype@Str.0" for (o, x, y, fa) in bins)),
+        ("unlimited width when max_len == 0", has([("Eq", 0), ("Ne", 0)], "p1.coltype@Str.0", const_is, **{"discr(*p2)": ("==", 2)})),
+        ("length counted in characters", any(o in ("Le", "Gt") and "Iterator>::count(core::str::<impl str>::chars(" in x and y == "p1.coltype@Str.0" for (o, x, y, fa) in bins)),
     ]
     # equivalent spelling of the range test: (min..=max).contains(&number)
     from ..lib import call_of
@@ -78,6 +80,13 @@ def info_valid(ctx, rule="INFO-VALID"):
     cs = symcalls(prog, f, S)
     cv = [c for c in cs if c[1].endswith("Category::validate")]
     ok = len(cv) == 1 and has_fact(S, cv[0][0], r"^discr\(\*p1\.category\)$", ("==", 1)) and "p2@Str.0" in cv[0][2][1] and "p1.category@Some.0" in cv[0][2][0]
+    if not cv:
+        # the same test inside a closure handed to an Option combinator on self.category (is_some_and, map_or, ...)
+        for L in lifted_closures(prog, f, S):
+            for b, t in L.fn.calls():
+                if cname(prog, t).endswith("Category::validate") and L.param and "p1.category@Some.0" in L.param:
+                    a = [L.val(x) for x in t["args"]]
+                    ok = "p1.category@Some.0" in a[0] and "p2@Str.0" in a[1]
     ctx.check(ok, rule, "category validation", "", "is_valid_value does not run category.validate(string) when a category is set", f.loc(), fn=f.name, key=rule + "|category")
     en = [c for c in cs if c[1].endswith("<impl [T]>::contains")]
     ok = len(en) == 1 and "p1.enum_values" in en[0][2][0] and "p2@Str.0" in en[0][2][1] and has_fact(S, en[0][0], r"is_empty\(&\*p1\.enum_values\)", False)
